@@ -117,32 +117,6 @@ import (
 	"unsafe"
 )
 
-// Config mirrors WebPConfig (libwebp 1.2.4).
-type Config struct {
-	Lossless        int
-	Quality         float32
-	Method          int
-	ImageHint       int
-	TargetSize      int
-	TargetPSNR      float32
-	Segments        int
-	SNSStrength     int
-	FilterStrength  int
-	FilterSharpness int
-	FilterType      int
-	Autofilter      int
-	AlphaCompression int
-	AlphaFiltering  int
-	AlphaQuality    int
-	Pass            int
-	Preprocessing   int
-	Partitions      int
-	PartitionLimit  int
-	NearLossless    int
-	Exact           int
-	UseSharpYUV     int
-	QMin, QMax      int
-}
 
 // DefaultConfig returns libwebp's WebPConfigInit defaults.
 func DefaultConfig() Config {
@@ -179,12 +153,6 @@ func GetInfo(data []byte) (w, h int, ok bool) {
 	return int(cw), int(ch), r != 0
 }
 
-// Features mirrors WebPBitstreamFeatures.
-type Features struct {
-	Width, Height      int
-	HasAlpha, HasAnim  bool
-	Format             int // 0 undefined/mixed, 1 lossy, 2 lossless
-}
 
 // GetFeatures returns libwebp's view of the headers; status 0 = OK.
 func GetFeatures(data []byte) (Features, int) {
@@ -206,11 +174,6 @@ func DecodeRGBA(data []byte) (pix []byte, w, h int, err error) {
 	return pix, w, h, nil
 }
 
-// YUV holds tight-stride planes.
-type YUV struct {
-	W, H       int
-	Y, U, V, A []byte
-}
 
 // DecodeYUV decodes a lossy file to planes (loop filter applied unless bypass).
 func DecodeYUV(data []byte, bypassFilter bool) (*YUV, error) {
